@@ -11,6 +11,8 @@ CLAIMED = {
          'Trusted: MIR of the nightly toolchain as semantics; environment stubs for Evaluator::partial_evaluate / Policy::{id,effect}; HashMap/iterator adaptors as logged terms; what a condition evaluates to (C02), template links (C08), cedar-policy api.rs wrapper are outside.', '4 C01'),
  'C02': ('evaluator operator kernels unary_app and binary_arith over arbitrary Values (all kinds, all i64): exact checked arithmetic, overflow and type errors naming the first offending operand',
          'Trusted: model catalogue for core::num; EvaluationError constructors as opaque logged constructors. Outside: sets, `in`, records, like, parser/EST equivalence, extension calls.', '4 C02'),
+ 'C06': ('expression level of the JSON policy format: for every kind of AST expression node (if, &&, ||, unary / binary operators, attribute access, has, like, is, set, record, extension call, variable, slot) AST -> EST (generic walker + ExprBuilder dispatch + est::Builder) followed by EST -> AST (est::Expr::try_into_ast + real ast constructors) gives back the same kind, the same operator and the children in place; children opaque (structural induction)',
+         'Narrow slice of C06. Trusted / outside: children round-trip by induction hypothesis; printing/parsing of names, pattern elements, literal values are opaque leaves; JSON serde, scope constraints, annotations, links, policy sets, PST and protobuf are NOT covered (native battery of 41 policies through Policy::to_json/from_json exercises them).', '4 C06'),
  'C07': ('scalar kernels behind datetime/duration: offset, durationSince, toDate, toTime, toMilliseconds..toDays over all i64 (Int-mode, quotient lemma for / and %)',
          'Trusted: model catalogue (checked_*, rem_euclid, Option plumbing). Outside: constructor string parsing (regex, chrono), ip, decimal parsing.', '4 C07'),
  'C14': ('TPE response: classification of residual policies into the eight bucket sets and the residual map (one loop step from an arbitrary state, Residual::is_true/is_false/is_error executed from MIR), completion-quantified decision table, reason(), ResidualPolicy -> Policy conversion, policy_set() presents the residuals',
@@ -35,7 +37,6 @@ CLAIMED = {
 NA = {
  'C03': 'strict-validation soundness needs the typechecker over a ValidatorSchema composed with the whole evaluator in one query; the evaluator alone exceeded 24 GB under CBMC and its typed-AST recursion is not loop-free for engine M',
  'C05': 'subject is parse(print(ast)); the LALRPOP parser lexes with the regex crate - not a bounded computation either engine can take',
- 'C06': 'hand-written structural recursions over Expr/EST/PST trees plus prost; symbolic tree payloads explode, concrete trees give the solver nothing to decide',
  'C09': 'two parsers (LALRPOP + serde_json) and name resolution over HashMaps of parsed names',
  'C10': 'serde_json in both directions',
  'C11': 'machinery not built yet (type-directed conformance per node planned, see DESIGN.md section 4)',
